@@ -21,7 +21,11 @@ type Sys struct {
 	// Observe compares a full observation of both (called once per newly discovered state).
 	Observe func(impl, model interface{}) string
 	// Key returns the canonical state key of the implementation (default: Dump).
-	Key      func(impl interface{}) string
+	Key func(impl interface{}) string
+	// ModelKey returns a canonical key of the reference model. States are deduplicated on the PAIR
+	// (implementation heap, model state): an implementation state that is wrong for this history but
+	// happens to equal a legitimate state reached by another history must still be judged.
+	ModelKey func(model interface{}) string
 	OpLabel  func(op int) string
 	MaxDepth int
 	// MaxStates caps the search (0 = none); hitting it makes the result non-exhaustive.
@@ -66,7 +70,14 @@ func BFS(s *Sys) Result {
 		res.Viols = append(res.Viols, Viol{What: "initial state: " + m})
 		return res
 	}
-	seen[sha1.Sum([]byte(keyf(impl0)))] = true
+	pairKey := func(impl, model interface{}) keyT {
+		k := keyf(impl)
+		if s.ModelKey != nil {
+			k += "\x00#model#" + s.ModelKey(model)
+		}
+		return sha1.Sum([]byte(k))
+	}
+	seen[pairKey(impl0, model0)] = true
 	res.States = 1
 	frontier := [][]int{{}}
 	nw := runtime.GOMAXPROCS(0)
@@ -120,7 +131,7 @@ func BFS(s *Sys) Result {
 							lv = append(lv, Viol{History: nh, What: m})
 							continue
 						}
-						k := sha1.Sum([]byte(keyf(impl)))
+						k := pairKey(impl, model)
 						mu.Lock()
 						known := seen[k]
 						mu.Unlock()
